@@ -30,6 +30,8 @@ def _b_write_read(E): E.T(x=1); E.select(E.T)
 def _b_m2m(E):
     t = E.T(x=1); u = E.U(); u2 = E.U(); t.us.add(u); t.us.add(u2)
 def _b_ddl(E): E.db.execute('create table if not exists zz (a int)')
+def _b_ddl_commit_mid(E):
+    E.db.execute('create table if not exists zz (a int)'); E.commit(); E.db.execute('create table if not exists zz2 (a int)')
 def _b_raw_write(E): E.db.execute('insert into raw_t (a) values (1)')
 def _b_commit_mid(E): E.T(x=1); E.commit(); E.T(x=2)
 def _b_rollback_mid(E): E.T(x=1); E.flush(); E.rollback(); E.select(E.T)
@@ -61,6 +63,7 @@ SHAPES = {
     'serializable':    ({'serializable': True}, _b_read_write, [Q, MOD(False)], False),
     'pessimistic':     ({'optimistic': False}, _b_read_write, [Q, MOD(False)], False),
     'ddl':             ({'ddl': True}, _b_ddl, [W], False),
+    'ddl_commit_mid':  ({'ddl': True}, _b_ddl_commit_mid, [W, ['commit', False], W], False),   # set_transaction_mode runs twice: saved_fk_state
     'raw_write':       ({}, _b_raw_write, [W], False),
     'two_raw':         ({}, _b_two_raw, [W, Q, W], False),
     'commit_mid':      ({}, _b_commit_mid, [MOD(False), ['commit', False], MOD(False)], False),
@@ -73,6 +76,7 @@ SHAPES = {
     'empty':           ({}, lambda E: None, [], False),
 }
 CORE_SHAPES = ['read', 'optimistic', 'immediate', 'serializable', 'ddl']
+EXTRA_QUICK = ['ddl_commit_mid']      # non-core shapes that get the full pool coverage in the quick tier too
 POOLS = ['fresh', 'warm', 'dropped', 'disconnected']   # state of the thread-local pool when the session under test starts
 FOLLOW = ({'immediate': True}, _b_read_write, [Q, MOD(False)], False)
 WARM = {'warm': ({}, _b_read, [Q], False), 'dropped': ({'ddl': True}, _b_ddl, [W], False)}
@@ -433,7 +437,7 @@ def generate_cases(ctx):
     shapes = list(SHAPES)
     for shape in shapes:
         for pool in POOLS:
-            if not ctx.thorough and shape not in CORE_SHAPES and pool != 'warm' and not (pool == 'fresh' and shapes.index(shape) % 3 == ctx.seed % 3): continue
+            if not ctx.thorough and shape not in CORE_SHAPES + EXTRA_QUICK and pool != 'warm' and not (pool == 'fresh' and shapes.index(shape) % 3 == ctx.seed % 3): continue
             n, off = baseline_len(ctx, shape, pool, False)
             add(shape, pool, [])
             # every single fault index of the fault-free run (+ the calls error handling adds: up to 4 more)
